@@ -145,6 +145,48 @@ fn main() {
         let g = b.build();
         direction_rule(&g, k, &format!("{n} writers of one type, logic edges i->i+1 for every third i"));
     }
+    // access lists of particular shapes: a type named twice in one list (two shared borrows of one resource), and lists of
+    // 7 / 8 / 9 / 15 / 16 / 17 types in declaration order and reversed (`TypeIds` keeps 8 inline) - each against one reader or
+    // writer of a single type, declared before and after it
+    {
+        let mut shapes: Vec<(Vec<Acc>, String)> = vec![];
+        shapes.push((vec![Acc { id: 0, reads: vec![], writes: vec![9] }, Acc { id: 1, reads: vec![3, 3], writes: vec![] }, Acc { id: 2, reads: vec![3], writes: vec![] }], "a writes type 9, b reads type 3 twice, c reads type 3".into()));
+        shapes.push((vec![Acc { id: 0, reads: vec![3, 3], writes: vec![] }, Acc { id: 1, reads: vec![], writes: vec![9, 9] }, Acc { id: 2, reads: vec![], writes: vec![3] }], "a reads type 3 twice, b writes type 9 twice, c writes type 3".into()));
+        for k in [7usize, 8, 9, 15, 16, 17] {
+            for rev in [false, true] {
+                let mut list: Vec<u8> = (10..10 + k as u8).collect();
+                if rev { list.reverse(); }
+                for pick in [0usize, k / 2, k - 1] {
+                    let t = 10 + pick as u8;
+                    for many_writes in [false, true] {
+                        let many = if many_writes { Acc { id: 0, reads: vec![], writes: list.clone() } } else { Acc { id: 0, reads: list.clone(), writes: vec![] } };
+                        let one = if many_writes { Acc { id: 1, reads: vec![t], writes: vec![] } } else { Acc { id: 1, reads: vec![], writes: vec![t] } };
+                        shapes.push((vec![Acc { id: 0, ..many.clone() }, Acc { id: 1, ..one.clone() }], format!("function 0 {} {k} types {list:?}, function 1 {} type {t}", if many_writes { "writes" } else { "reads" }, if many_writes { "reads" } else { "writes" })));
+                        shapes.push((vec![Acc { id: 0, ..one }, Acc { id: 1, ..many }], format!("function 0 touches type {t}, function 1 {} {k} types {list:?}", if many_writes { "writes" } else { "reads" })));
+                    }
+                }
+            }
+        }
+        for (accs, d) in shapes {
+            let desc = format!("access-list shapes: {d}");
+            let n = accs.len();
+            let mut b = FnGraphBuilder::new();
+            for a in accs.iter().cloned() { b.add_fn(a); }
+            let g = match std::panic::catch_unwind(std::panic::AssertUnwindSafe(|| b.build())) { Ok(g) => g, Err(_) => { println!("VIOLATION (build panicked): {desc}"); std::process::exit(1); } };
+            let raw = g.graph.raw_edges();
+            for e in raw {
+                let (s_, t_) = (e.source().index(), e.target().index());
+                if e.weight != Edge::Data || !conflict(&accs[s_], &accs[t_]) { println!("VIOLATION (C06/C11: built edge {s_}->{t_} {:?} does not join two functions with conflicting data access): {desc}", e.weight); std::process::exit(1); }
+            }
+            for i in 0..n { for j in (i + 1)..n {
+                let joined = raw.iter().any(|e| (e.source().index(), e.target().index()) == (i, j) || (e.source().index(), e.target().index()) == (j, i));
+                // no user edges and at most 3 functions: ordered means joined directly or through the third
+                let via = (0..n).any(|m| m != i && m != j && raw.iter().any(|e| e.source().index() == i && e.target().index() == m) && raw.iter().any(|e| e.source().index() == m && e.target().index() == j));
+                if conflict(&accs[i], &accs[j]) && !joined && !via { println!("VIOLATION (C01/C11: conflicting functions {i} and {j} are not ordered in the built graph): {desc}"); std::process::exit(1); }
+            } }
+            direction_rule(&g, 0, &desc);
+        }
+    }
     // large families (effects that only show beyond small graphs: wrap-around of small counters, more data types than a
     // machine word has bits): the same static oracles on (a) 300 functions without user edges where function i writes
     // slot (i/2)%4 and reads slot (i/2+1)%4, (b) a batch job over 70 tables (load_i writes table i, check_i reads tables
